@@ -1,6 +1,6 @@
 (* C16 -- Line endings and reserved control characters.  Property theorems only. *)
 From Rimu Require Import Base Regex RegexParse Str Types Tables Guards State Inline Block
-  Frame FrameBlock FrameInst OptionsLemmas MiscLemmas Lines RegexSem MatchLemmas Placeholder Taint.
+  Frame FrameBlock FrameInst OptionsLemmas MiscLemmas Lines RegexSem MatchLemmas Placeholder TaintInline NoRaise NoRaiseTop Taint.
 
 (* the reader treats U+0000..U+0002 as blanks: a source and its blanked version give the same reader *)
 Theorem C16_blanked : forall text, mk_reader (blank_reserved text) = mk_reader text.
